@@ -91,12 +91,13 @@ typedef struct tctx {
   uint64_t stepdig[MAXSTEP]; char stepname[MAXSTEP][12];
   long nonzero;              /* non-zero PCM samples / packet bytes observed */
   long padded;               /* packets ending in >=16 zero bytes (bitrate-floor padding) */
+  long tiny_packets,tiny_empty; /* ENCT/ENCS: audio packets produced; sub-encodes with input but no audio packet */
   int undef;                 /* valgrind: an observed buffer had undefined bytes */
 } tctx;
 static __thread tctx *me=0;
 
 /* ------------------------------------------------------------------ shared result block (child -> parent) */
-typedef struct { h128 dig; long pc[4]; long napi,nsteps,nonzero,padded; int fenv_bad; char fenv_where[48]; uint64_t stepdig[MAXSTEP]; char stepname[MAXSTEP][12]; } thres;
+typedef struct { h128 dig; long pc[4]; long napi,nsteps,nonzero,padded,tiny_packets,tiny_empty; int fenv_bad; char fenv_where[48]; uint64_t stepdig[MAXSTEP]; char stepname[MAXSTEP][12]; } thres;
 typedef struct {
   int done, err; char errmsg[160];
   int n;
@@ -265,6 +266,50 @@ static void body_enc(tctx *T,const enc_cfg *c){
   API(vorbis_block_clear(&vb)); API(vorbis_dsp_clear(&vd)); API(vorbis_comment_clear(&vc)); API(vorbis_info_clear(&vi));
 }
 
+/* very short encodes: total input of n samples per channel (0..100), fed in one wrote() call or in 3-sample pieces, then end of stream.
+   With <= 32 samples the encoder skips its reverse pre-extrapolation and the end-of-stream LPC extrapolation is trained on the
+   lead-in of the freshly allocated pcm vectors, so this is where "output independent of prior heap contents" is decided. */
+static void tiny_encode(tctx *T,int ch,long rate,int n,int split){
+  vorbis_info vi; vorbis_comment vc; vorbis_dsp_state vd; vorbis_block vb; ogg_packet op,h1,h2,h3; int r=0; long done=0,audio=0;
+  API(vorbis_info_init(&vi));
+  API(r=vorbis_encode_init_vbr(&vi,ch,rate,0.3f)); OBS_I(r);
+  if(r){ API(vorbis_info_clear(&vi)); return; }
+  API(r=vorbis_analysis_init(&vd,&vi)); OBS_I(r);
+  API(r=vorbis_block_init(&vd,&vb)); OBS_I(r);
+  API(vorbis_comment_init(&vc));
+  API(r=vorbis_analysis_headerout(&vd,&vc,&h1,&h2,&h3)); OBS_I(r);
+  if(!r){ OBS_PKT(&h1); OBS_PKT(&h3); }
+  while(1){
+    int last=(done>=n),c=0;
+    if(!last){
+      float **b=0; long j; int k;
+      c=split?(n-done>3?3:(int)(n-done)):(int)(n-done);
+      API(b=vorbis_analysis_buffer(&vd,c));
+      for(j=0;j<c;j++)for(k=0;k<ch;k++)b[k][j]=sig(T,k,done+j,rate);
+      API(r=vorbis_analysis_wrote(&vd,c)); OBS_I(r); done+=c;
+    }else{ API(r=vorbis_analysis_wrote(&vd,0)); OBS_I(r); }
+    while(1){
+      API(r=vorbis_analysis_blockout(&vd,&vb)); OBS_I(r);
+      if(r!=1)break;
+      API(r=vorbis_analysis(&vb,NULL)); OBS_I(r);
+      API(r=vorbis_bitrate_addblock(&vb)); OBS_I(r);
+      while(1){ API(r=vorbis_bitrate_flushpacket(&vd,&op)); OBS_I(r); if(r!=1)break; OBS_PKT(&op); audio++; }
+    }
+    if(last)break;
+  }
+  OBS_I(audio); T->tiny_packets+=audio; if(n>0&&audio<1)T->tiny_empty++;
+  API(vorbis_block_clear(&vb)); API(vorbis_dsp_clear(&vd)); API(vorbis_comment_clear(&vc)); API(vorbis_info_clear(&vi));
+}
+static void body_tiny(tctx *T,int subset){
+  static const int lens[7]={0,1,7,20,32,33,100}; int ch,li,sp; char nm[12];
+  for(ch=1;ch<=2;ch++)for(li=0;li<7;li++)for(sp=0;sp<2;sp++){
+    if(subset&&!((lens[li]==7&&sp==0)||(lens[li]==32&&sp==1)))continue;
+    snprintf(nm,sizeof(nm),"t%d_%d_%c",ch,lens[li],sp?'s':'o');
+    STEP(nm);
+    tiny_encode(T,ch,ch==1?8000:11025,lens[li],sp);
+  }
+}
+
 typedef struct { int st; int groups; int restart_after; int half; } dec_cfg;
 static void body_dec(tctx *T,const dec_cfg *c){
   const stream_t *s=&g_st[c->st]; vorbis_info vi; vorbis_comment vc; vorbis_dsp_state vd; vorbis_block vb; ogg_packet op; int r=0,i,g,na,per;
@@ -353,8 +398,8 @@ static void body_vf(tctx *T,const vf_cfg *c){
   API(r=ov_clear(&vf)); OBS_I(r); OBS_I(m.nclose); OBS_I(m.nread); OBS_I(m.nseek);
 }
 
-enum { B_ENCA=0,B_ENCB,B_ENCC,B_ENCD,B_ENCM,B_DECA,B_DECB,B_DECF,B_DECH,B_DECL,B_DECR,B_VFA,B_VFB,B_VFF,B_VFC,B_VFL,B_VFR,NBODY };
-static const char *g_bname[NBODY]={"ENCA","ENCB","ENCC","ENCD","ENCM","DECA","DECB","DECF","DECH","DECL","DECR","VFA","VFB","VFF","VFC","VFL","VFR"};
+enum { B_ENCA=0,B_ENCB,B_ENCC,B_ENCD,B_ENCM,B_ENCT,B_ENCS,B_DECA,B_DECB,B_DECF,B_DECH,B_DECL,B_DECR,B_VFA,B_VFB,B_VFF,B_VFC,B_VFL,B_VFR,NBODY };
+static const char *g_bname[NBODY]={"ENCA","ENCB","ENCC","ENCD","ENCM","ENCT","ENCS","DECA","DECB","DECF","DECH","DECL","DECR","VFA","VFB","VFF","VFC","VFL","VFR"};
 static const enc_cfg g_enc[5]={
   {2,44100,0,0.4f,0,0,0,3,1024,0,0},            /* ENCA stereo 44.1k VBR */
   {1,8000,2,0,-1,12000,-1,3,1024,0,0},          /* ENCB mono 8k, 3-step managed setup + ctl */
@@ -369,13 +414,15 @@ static int body_id(const char *n){ int i; for(i=0;i<NBODY;i++)if(!strcmp(n,g_bna
 static void run_body(tctx *T){
   int b=T->body;
   if(b<=B_ENCM)body_enc(T,&g_enc[b]);
+  else if(b==B_ENCT)body_tiny(T,0);
+  else if(b==B_ENCS)body_tiny(T,1);
   else if(b<=B_DECR)body_dec(T,&g_dec[b-B_DECA]);
   else body_vf(T,&g_vf[b-B_VFA]);
   step_close(T);
 }
 static void tctx_init(tctx *T,int tid,int body){ memset(T,0,sizeof(*T)); T->tid=tid; T->body=body; T->fenv_bad=-1; T->lcg=4711u+97u*(unsigned)body; h_init(&T->dig); }
 static void tctx_export(const tctx *T,thres *o){
-  o->dig=T->dig; memcpy(o->pc,T->pc,sizeof(o->pc)); o->napi=T->napi; o->nsteps=T->nsteps; o->nonzero=T->nonzero; o->padded=T->padded; o->fenv_bad=T->fenv_bad;
+  o->dig=T->dig; memcpy(o->pc,T->pc,sizeof(o->pc)); o->napi=T->napi; o->nsteps=T->nsteps; o->nonzero=T->nonzero; o->padded=T->padded; o->tiny_packets=T->tiny_packets; o->tiny_empty=T->tiny_empty; o->fenv_bad=T->fenv_bad;
   memcpy(o->fenv_where,T->fenv_where,sizeof(o->fenv_where)); memcpy(o->stepdig,T->stepdig,sizeof(o->stepdig)); memcpy(o->stepname,T->stepname,sizeof(o->stepname));
 }
 
@@ -575,7 +622,7 @@ static void do_case(long idx,char *line){
     g_solo_have[b[0]]=0; if(solo_get(b[0])){ printf("%ld SOLOFAIL body=%s\n",idx,g_bname[b[0]]); return; }
     det=!memcmp(&first.dig,&g_solo[b[0]].dig,sizeof(h128))&&first.napi==g_solo[b[0]].napi&&first.pc[3]==g_solo[b[0]].pc[3];
     h_hex(&first.dig,hx);
-    printf("%ld ok body=%s dig=%s steps=%ld api=%ld allocs=%ld nonzero=%ld padded=%ld fenv=%d det=%d\n",idx,g_bname[b[0]],hx,first.nsteps,first.napi,first.pc[3]-first.pc[2],first.nonzero,first.padded,first.fenv_bad,det);
+    printf("%ld ok body=%s dig=%s steps=%ld api=%ld allocs=%ld nonzero=%ld padded=%ld tinypk=%ld tinyempty=%ld fenv=%d det=%d\n",idx,g_bname[b[0]],hx,first.nsteps,first.napi,first.pc[3]-first.pc[2],first.nonzero,first.padded,first.tiny_packets,first.tiny_empty,first.fenv_bad,det);
     return;
   }
   if(!strcmp(kind,"fill")){
